@@ -24,7 +24,7 @@ func init() {
 		Assume: []string{"process-kill semantics: every completed system call survives (no power loss / page-cache loss is claimed by the property)", "goleveldb background goroutines have no work at these data volumes; their file operations are nevertheless excluded from images in progress by a read/write lock"},
 		Run:    runC08,
 	})
-	expectedProbes["C08"] = []string{"c08.crash_inside_request", "c08.crash_boundary", "c08.clean_stop", "c08.crash_during_recovery", "c08.torn_write", "c08.inflight_applied", "c08.inflight_absent", "c08.crash_in_meta_write", "c08.crash_in_removeall", "c08.second_cycle", "c08.two_inflight", "c08.concurrent_admin_restart_equal"}
+	expectedProbes["C08"] = []string{"c08.crash_inside_request", "c08.families_recreated_after_restart", "c08.crash_boundary", "c08.clean_stop", "c08.crash_during_recovery", "c08.torn_write", "c08.inflight_applied", "c08.inflight_absent", "c08.crash_in_meta_write", "c08.crash_in_removeall", "c08.second_cycle", "c08.two_inflight", "c08.concurrent_admin_restart_equal"}
 }
 
 type inflightOp struct {
@@ -300,6 +300,10 @@ func runC08(r *Run) {
 	}
 	nOps := 2 + cfg.Intn(18)
 	twoClients := cfg.Intn(2) == 1
+	// a third of the runs: after every restart, first create again every family of the name
+	// universe that a table does not have, and read the table - "dropped families do not reappear"
+	// (cells of a dropped family that survived on disk are invisible until then)
+	probeFamilies := cfg.Intn(3) == 0
 	cycles := 1 + cfg.Intn(3)
 	clk := NewClock(1_700_000_000_000_000+int64(cfg.Intn(1000)), 1_700_000_000_000_000_000)
 	ldbYieldOn = true
@@ -534,9 +538,35 @@ func runC08(r *Run) {
 			if epoch > 0 && left < 3 {
 				left = 3
 			}
+			var probeQ []btOp
+			if epoch > 0 && probeFamilies {
+				for _, name := range model.tableNames() {
+					if strings.Contains(name, "/instances/side/") {
+						continue
+					}
+					var mods []*btapb.ModifyColumnFamiliesRequest_Modification
+					for _, f := range c14Fams {
+						if _, has := model.Tables[name].Fams[f]; !has {
+							mods = append(mods, &btapb.ModifyColumnFamiliesRequest_Modification{Id: f, Mod: &btapb.ModifyColumnFamiliesRequest_Modification_Create{Create: &btapb.ColumnFamily{}}})
+						}
+					}
+					if len(mods) > 0 {
+						probeQ = append(probeQ, btOp{Kind: "Modify", Table: name, Mods: mods}, btOp{Kind: "ReadAll", Table: name})
+					}
+				}
+				if len(probeQ) > 0 {
+					r.Probe("c08.families_recreated_after_restart")
+				}
+				left += len(probeQ)
+			}
 			runClient(0, ps0, left, func(d *draws) btOp {
 				if !twoClients {
 					clockStep(r, clk, false) // with a second client in flight the clock stands still
+				}
+				if len(probeQ) > 0 {
+					op := probeQ[0]
+					probeQ = probeQ[1:]
+					return op
 				}
 				return gen(d, model, issued)
 			})
